@@ -7,6 +7,7 @@ import (
 	"math/rand"
 	"net/smtp"
 	"strings"
+	"sync"
 	"text/template"
 	"time"
 
@@ -26,6 +27,9 @@ func NewSMTPMailer(server string, auth smtp.Auth) *SMTPMailer {
 	random := rand.New(rand.NewSource(time.Now().UnixNano()))
 	return &SMTPMailer{server, auth, random}
 }
+
+// boundaryMu serialises the use of the mailers' random generators.
+var boundaryMu sync.Mutex
 
 // SMTPMailer uses smtp to actually send e-mails
 type SMTPMailer struct {
@@ -69,6 +73,10 @@ func (s SMTPMailer) boundary() string {
 	const alphabet = "abcdefghijklmnopqrstuvwxyz0123456789"
 	buf := &bytes.Buffer{}
 
+	// A *rand.Rand is not safe for concurrent use, and Send is called from
+	// many requests (and from the goroutines the modules start for mail).
+	boundaryMu.Lock()
+	defer boundaryMu.Unlock()
 	for i := 0; i < 23; i++ {
 		buf.WriteByte(alphabet[s.rand.Int()%len(alphabet)])
 	}
